@@ -53,7 +53,9 @@ def key(n):
     if k in ("Binary", "Assign", "CompoundAssign"):
         return "(%s %s %s)" % (key(n["l"]), n["op"], key(n["r"]))
     if k == "Unary":
-        return "(%s%s)" % (n["op"], key(n["e"])) if n.get("prefix", True) else "(%s%s)" % (key(n["e"]), n["op"])
+        if n["op"] in ("++", "--") and not n.get("prefix", True):
+            return "(%s%s)" % (key(n["e"]), n["op"])
+        return "(%s%s)" % (n["op"], key(n["e"]))
     if k == "Cond":
         return "(%s ? %s : %s)" % (key(n["cond"]), key(n["then"]), key(n["else"]))
     if k == "Subscript":
@@ -75,9 +77,13 @@ def key(n):
         return "%s(%s)" % (nm, ",".join(args))
     if k == "Construct":
         args = [key(a) for a in n.get("args", [])]
-        if len(args) == 1:
-            return args[0]
-        return "%s{%s}" % (n.get("cls", "T").split("<")[0].split("::")[-1], ",".join(args))
+        cls = n.get("cls", "T").split("<")[0].split("::")[-1]
+        pt = (n.get("callee", {}).get("ptypes") or [""])
+        if len(args) == 1 and cls and cls in pt[0]:
+            return args[0]          # copy / move construction is transparent
+        return "%s{%s}" % (cls, ",".join(args))
+    if k == "InitList":
+        return "%s{%s}" % ((n.get("type") or "T").split("<")[0].split("::")[-1], ",".join(key(a) for a in n.get("c", [])))
     if k == "SizeOf":
         return "sizeof(%s)" % (n.get("of") or key(n.get("e")))
     if "const" in n:
@@ -240,3 +246,98 @@ def fn_where(f, node=None):
     from .. import common as C
     ln = (node or {}).get("line") or f.get("line")
     return "%s:%s" % (C.repo_rel(f.get("file", "")), ln)
+
+
+# ---------------------------------------------------------------------------------------------
+# expressions as polynomials (arithmetic compared up to commutativity/associativity/distribution)
+def poly_of(n, rename=None):
+    from ..ir.poly import Poly
+    n = strip(n)
+    if n is None:
+        return Poly.atom("?")
+    k = n.get("k")
+    if "const" in n and k not in ("DeclRef", "Member") and is_lit(str(n["const"])):
+        return Poly.const(int(n["const"]))
+    if k == "Int":
+        return Poly.const(int(n["v"]))
+    if k == "Binary" and n["op"] in ("+", "-", "*"):
+        a, b = poly_of(n["l"], rename), poly_of(n["r"], rename)
+        return a + b if n["op"] == "+" else (a - b if n["op"] == "-" else a * b)
+    if k == "Unary" and n["op"] == "-":
+        return -poly_of(n["e"], rename)
+    if k == "Unary" and n["op"] == "+":
+        return poly_of(n["e"], rename)
+    if k == "Call" and n.get("op") in ("+", "-") and len(n.get("args", [])) == 2:
+        a, b = poly_of(n["args"][0], rename), poly_of(n["args"][1], rename)
+        return a + b if n["op"] == "+" else a - b
+    s = key(n)
+    if rename:
+        s = rename(s)
+    return Poly.atom(s)
+
+
+def renamer(f):
+    """parameters -> $i, locals -> Li (declaration order)"""
+    import re
+    names = {}
+    for i, p in enumerate(f["params"]):
+        if p["name"]:
+            names[p["name"]] = "$%d" % i
+    cnt = [0]
+
+    def visit(x, p):
+        if x.get("k") == "Decl":
+            for dd in x["decls"]:
+                if dd.get("name") and dd["name"] not in names:
+                    names[dd["name"]] = "L%d" % cnt[0]
+                    cnt[0] += 1
+    walk(f["body"], visit)
+    return lambda s: re.sub(r"[A-Za-z_][A-Za-z_0-9]*", lambda m: names.get(m.group(0), m.group(0)), s)
+
+
+def param_renamer(f):
+    """parameters -> $i ; locals keep their names (compared up to a consistent renaming by unify())"""
+    import re
+    names = {}
+    for i, p in enumerate(f["params"]):
+        if p["name"]:
+            names[p["name"]] = "$%d" % i
+    return lambda s: re.sub(r"[A-Za-z_][A-Za-z_0-9]*", lambda m: names.get(m.group(0), m.group(0)), s)
+
+
+def local_names(f):
+    out = set()
+
+    def visit(x, p):
+        if x.get("k") == "Decl":
+            for dd in x["decls"]:
+                if dd.get("name"):
+                    out.add(dd["name"])
+    walk(f["body"], visit)
+    return out
+
+
+def unify(got, want, locals_got, mapping):
+    """got == want up to a consistent injective renaming of local identifiers (mapping: want-name -> got-name, extended in place)"""
+    import re
+    tok = re.compile(r"[A-Za-z_][A-Za-z_0-9]*|\$\d+|[^A-Za-z_$\s]+|\s+")
+    tg, tw = tok.findall(got), tok.findall(want)
+    if len(tg) != len(tw):
+        return False
+    new = dict(mapping)
+    for a, b in zip(tg, tw):
+        if a == b and a not in locals_got and b not in new:
+            continue
+        if a in locals_got or b in new:
+            if b in new:
+                if new[b] != a:
+                    return False
+            else:
+                if a in new.values():
+                    return False
+                new[b] = a
+            continue
+        if a != b:
+            return False
+    mapping.update(new)
+    return True
